@@ -304,7 +304,7 @@ Fixpoint split_lex (ps : list piece) : list piece * option (token * list piece) 
   match ps with
   | [] => ([], None)
   | PLex t :: r => ([], Some (t, r))
-  | p :: r => (p :: fst (split_lex r), snd (split_lex r))
+  | p :: r => let (g, o) := split_lex r in (p :: g, o)
   end.
 Fixpoint drop_blank32 (ps : list piece) : list piece :=
   match ps with
